@@ -157,6 +157,7 @@ class FnExec:
                 st.vars[p["name"]] = (self._make_param_region(st, p["name"], t, ns_len), z3.BoolVal(True))
             elif t[0] not in ("int", "real"):
                 raise Unsupported("parameter type %s" % (t,))
+        self.facts.extend(smt.GROUND_FACTS)
         self.entry = st.copy()
         self.state0 = st
         # preconditions
